@@ -58,6 +58,21 @@ def schema_json(t, basic=None, main=None):
     return {"top": ty_json(t), "basic": [[a, b] for a, b in (basic or {}).items()], "main": main}
 
 
+def canon_schema(sj):
+    """schema JSON with every remap table (lookups with unique keys) sorted by key: the form in which the
+    Lean schema and the one read off the working tree are compared — their order carries no meaning"""
+    def ty(j):
+        if isinstance(j, dict) and "list" in j:
+            return {"list": ty(j["list"])}
+        if isinstance(j, dict) and "model" in j:
+            return {"model": [[n, ty(t), d] for n, t, d in j["model"]],
+                    "h2f": sorted(map(list, j.get("h2f") or [])), "f2h": sorted(map(list, j.get("f2h") or []))}
+        return j
+    main = sj.get("main")
+    return {"top": ty(sj["top"]), "basic": sorted(map(list, sj.get("basic") or [])),
+            "main": None if main is None else [main[0], main[1], sorted(map(list, main[2]))]}
+
+
 def canon_model(j):
     """driver's value JSON → comparable form (floats as python floats)"""
     if isinstance(j, dict):
@@ -410,48 +425,13 @@ def desc_of_class(cls, maps):
 
 
 def flow_row_schema():
-    """(description, schema JSON for the driver) of FlowRowModel, from the working tree"""
-    from .extract_tables import _find_class, _parse
+    """(description, schema JSON for the driver) of FlowRowModel, from the working tree: field lists by
+    pydantic introspection, remap tables read off the BEHAVIOUR of the model's own remap functions
+    (harness/tables/t07_flowrow.py) — no dependence on where / how the source spells them"""
     from .tables import t07_flowrow as T
 
-    mod_ast = _parse("parsers/creation/flowrowmodel.py")
     mod = T.load_module()
-    t = desc_of_class(mod.FlowRowModel, T.source_maps(mod_ast))
-    try:
-        frm = _find_class(mod_ast, "FlowRowModel")
-        ctx = [n for n in frm.body if getattr(n, "name", "") == "header_name_to_field_name_with_context"][0]
-        basic = dict(T._dict_literal(ctx, "basic_header_dict"))
-        mainarg = T._dict_literal(ctx, "row_type_to_main_arg")
-        hdr, tcol = T._main_header(ctx)
-    except (KeyError, IndexError, ValueError, SyntaxError, AssertionError):
-        # the tables are not where the translator looks for them (the Lean step reports that): read them off
-        # the BEHAVIOUR of the function instead, so that generators and the direct oracle keep working
-        import ast as _ast
-
-        consts = []
-        for n in _ast.walk(mod_ast):
-            if isinstance(n, _ast.Constant) and isinstance(n.value, str) and n.value not in consts:
-                consts.append(n.value)
-        f = mod.FlowRowModel.header_name_to_field_name_with_context
-        hdr, tcol = "message_text", "type"
-        mainarg = []
-        for ty in consts:
-            try:
-                r = f(hdr, {tcol: ty})
-            except Exception:  # noqa: BLE001
-                continue
-            if isinstance(r, str) and r != hdr:
-                mainarg.append((ty, r))
-        some_type = mainarg[0][0] if mainarg else "send_message"
-        basic = {}
-        for h in consts:
-            if h == hdr:
-                continue
-            try:
-                r = f(h, {tcol: some_type})
-            except Exception:  # noqa: BLE001
-                continue
-            if isinstance(r, str) and r != h:
-                basic[h] = r
-    sj = schema_json(t, basic, [hdr, tcol, [[a, b] for a, b in mainarg]])
+    t = desc_of_class(mod.FlowRowModel, T.source_maps())
+    basic, hdr, tcol, mainarg = T.context_tables(mod)
+    sj = schema_json(t, dict(basic), [hdr, tcol, [[a, b] for a, b in mainarg]])
     return t, sj, dict(mainarg)
